@@ -22,6 +22,9 @@ inductive Pol where
 structure GotItem where
   id : Nat
   created : Nat := 0        -- timestamp_creation (ticks); used by the sink's cycle time
+  pallet : Bool := false    -- flow_item_type == "Pallet"
+  content : List Nat := []  -- ids of the items a pallet carries, in loading order
+  woke : List Nat := []     -- the node's own outstanding tokens that this very get() triggered
   deriving DecidableEq, Repr, Inhabited
 
 structure Ans where
@@ -35,6 +38,7 @@ structure Ans where
 inductive Call where
   | rg (e tok : Nat) | rp (e tok : Nat)
   | get (e tok item : Nat) | put (e tok item : Nat)
+  | putU (e tok item : Nat) (content : List Nat)      -- put of a unit that may carry items
   | cg (e tok : Nat) | cp (e tok : Nat)
   | can (e : Nat) (r : Bool)
   | draw (d : Nat) | sel (k : Int)
@@ -51,6 +55,7 @@ inductive Call where
 def Call.show : Call → String
   | .rg e t => s!"rg e{e} t{t}" | .rp e t => s!"rp e{e} t{t}"
   | .get e t i => s!"get e{e} t{t} i{i}" | .put e t i => s!"put e{e} t{t} i{i}"
+  | .putU e t i c => if c.isEmpty then s!"put e{e} t{t} i{i}" else s!"put e{e} t{t} i{i}{c}"
   | .cg e t => s!"cg e{e} t{t}" | .cp e t => s!"cp e{e} t{t}"
   | .can e r => s!"can e{e} {if r then 1 else 0}"
   | .draw d => s!"draw {d}" | .sel k => s!"sel {k}"
